@@ -81,7 +81,7 @@ pub fn judge_msg(ctx: &mut Ctx, b: &[u8], o: Option<SOpts>) {
     let base = exec::decode_msg(b, o, Rk::Slice);
     let mut unchecked = 0;
     let reentrant = Rk::Reentrant(1 + ctx.rng.below(40));
-    for rk in [Rk::ContractSlice, Rk::ContractVec, Rk::Segmented(1 + (ctx.rng.below(5)) as usize), reentrant] {
+    for rk in [Rk::ContractSlice, Rk::ContractVec, Rk::Segmented(1 + (ctx.rng.below(5)) as usize), reentrant, Rk::Wiping] {
         let run = exec::decode_msg(b, o, rk);
         unchecked += account(ctx, "decode", &run, b, o);
         ctx.rep.bucket("readers.compared");
